@@ -12,7 +12,7 @@ from experimaestro import experiment, RunMode  # noqa: E402
 import vpk_c17 as S  # noqa: E402
 
 
-def value_of(v, objs):
+def value_of(v, objs, rev=False):
     t = v["t"]
     if t == "none":
         return None
@@ -21,9 +21,11 @@ def value_of(v, objs):
     if t == "ref":
         return objs[v["n"]]
     if t == "list":
-        return [value_of(x, objs) for x in v["v"]]
+        return [value_of(x, objs, rev) for x in v["v"]]
     if t == "dict":
-        return {k: value_of(x, objs) for k, x in v["v"]}
+        # rev: the same dict filled in the opposite order (same configuration, same identifier)
+        items = list(reversed(v["v"])) if rev else v["v"]
+        return {k: value_of(x, objs, rev) for k, x in items}
     raise ValueError(t)
 
 
@@ -34,17 +36,17 @@ def canon_path(p):
     return dict(root=root, parts=parts)
 
 
-def fill(i, nd, objs):
+def fill(i, nd, objs, rev=False):
     o = objs[i]
     # assignment order is arbitrary: the walk follows the declaration order
     for k in nd.get("order") or range(len(nd["fields"])):
         name, v = nd["fields"][k]
-        setattr(o, name, value_of(v, objs))
+        setattr(o, name, value_of(v, objs, rev))
     if nd["pre"]:
         o.add_pretasks(*[objs[j] for j in nd["pre"]])
 
 
-def build_and_submit(case):
+def build_and_submit(case, rev=False):
     nodes = case["nodes"]
     objs = {}
     for i, nd in enumerate(nodes):
@@ -53,12 +55,12 @@ def build_and_submit(case):
     # configurations sealed by earlier submissions
     for i, nd in enumerate(nodes):
         if nd["sealed"]:
-            fill(i, nd, objs)
+            fill(i, nd, objs, rev)
     for pid, oid in case["producers"]:
         objs[oid] = objs[pid].submit(run_mode=RunMode.DRY_RUN)
     for i, nd in enumerate(nodes):
         if not nd["sealed"] and nd["cls"] != "Out":
-            fill(i, nd, objs)
+            fill(i, nd, objs, rev)
     sealed_before = [bool(objs[i].__xpm__._sealed) for i in range(len(nodes))]
     root = objs[case["root"]]
     exc = None
@@ -93,7 +95,7 @@ def class_table():
 def run_case(case):
     try:
         a = build_and_submit(case)
-        b = build_and_submit(case)
+        b = build_and_submit(case, rev=bool(case.get("reorder")))
         return dict(first=a, second=b)
     except Exception as e:  # noqa
         import traceback
